@@ -151,62 +151,83 @@ structure P1 where
   rel : List (W × Key)
   lines : Option (List (Option W) × SourceInfo)
 
-/-- one statement of the first pass -/
-def pass1Step (st : P1) (stmt : Stmt) : ARes P1 := do
-  -- labels
-  let labels ←
-    if stmt.labels.isEmpty then pure st.labels
-    else match st.cursor with
-      | none => throw ⟨.undetAddrLabel, stmt.labels.map Label.span⟩
-      | some cur => addLabels st.labels stmt.labels cur.lc
-  -- special directives
-  let (cursor, labels, rel) ← (match stmt.nucleus with
-    | .directive (.orig addr) =>
-      (match st.cursor with
-       | some cur => throw ⟨.overlappingOrig, [cur.blockOrig, stmt.span]⟩
-       | none => pure (some ⟨addr, false, stmt.span⟩, labels, st.rel))
-    | .directive .end_ =>
-      (match st.cursor with
-       | some _ => pure (none, labels, st.rel)
-       | none => throw ⟨.unopenedOrig, [stmt.span]⟩)
-    | .directive (.external l) => do
-      let labels ← addLabel labels l 0 true
-      pure (st.cursor, labels, st.rel)
-    | .directive (.fill (.label l)) =>
-      let key := upperS l.name
-      (match st.cursor with
-       | some cur => pure (st.cursor, labels, relInsert st.rel cur.lc key)
-       | none =>
-         match lookupKey labels key with
-         | some ⟨_, _, true⟩ => throw ⟨.undetAddrStmt, [stmt.span]⟩
-         | _ => pure (st.cursor, labels, st.rel))
-    | _ => pure (st.cursor, labels, st.rel) : ARes (Option Cursor × List (Key × SymData) × List (W × Key)))
-  -- line mapping and location counter
+/-- pass 1, part 1: the labels of a statement are bound to the current location counter -/
+def p1Labels (st : P1) (stmt : Stmt) : ARes (List (Key × SymData)) :=
+  if stmt.labels.isEmpty then .ok st.labels
+  else match st.cursor with
+    | none => .error ⟨.undetAddrLabel, stmt.labels.map Label.span⟩
+    | some cur => addLabels st.labels stmt.labels cur.lc
+
+/-- pass 1, part 2: `.orig`, `.end`, `.external`, `.fill LABEL` -/
+def p1Special (st : P1) (stmt : Stmt) (labels : List (Key × SymData)) :
+    ARes (Option Cursor × List (Key × SymData) × List (W × Key)) :=
+  match stmt.nucleus with
+  | .directive (.orig addr) =>
+    (match st.cursor with
+     | some cur => .error ⟨.overlappingOrig, [cur.blockOrig, stmt.span]⟩
+     | none => .ok (some ⟨addr, false, stmt.span⟩, labels, st.rel))
+  | .directive .end_ =>
+    (match st.cursor with
+     | some _ => .ok (none, labels, st.rel)
+     | none => .error ⟨.unopenedOrig, [stmt.span]⟩)
+  | .directive (.external l) =>
+    (match addLabel labels l 0 true with
+     | .error e => .error e
+     | .ok labels => .ok (st.cursor, labels, st.rel))
+  | .directive (.fill (.label l)) =>
+    let key := upperS l.name
+    (match st.cursor with
+     | some cur => .ok (st.cursor, labels, relInsert st.rel cur.lc key)
+     | none =>
+       match lookupKey labels key with
+       | some ⟨_, _, true⟩ => .error ⟨.undetAddrStmt, [stmt.span]⟩
+       | _ => .ok (st.cursor, labels, st.rel))
+  | _ => .ok (st.cursor, labels, st.rel)
+
+/-- statements whose line is not recorded in the line map -/
+def noLine : StmtKind → Bool
+  | .directive (.orig _) => true | .directive .end_ => true | .directive (.external _) => true | _ => false
+
+/-- pass 1, part 3: line mapping and location counter -/
+def p1Advance (st : P1) (stmt : Stmt) (cursor : Option Cursor) (labels : List (Key × SymData)) (rel : List (W × Key)) : ARes P1 :=
   match cursor with
-  | none => pure ⟨none, labels, rel, st.lines⟩
+  | none => .ok ⟨none, labels, rel, st.lines⟩
   | some cur =>
     let lines := match st.lines with
       | none => none
-      | some (ls, s) =>
-        let skip := match stmt.nucleus with
-          | .directive (.orig _) => true | .directive .end_ => true | .directive (.external _) => true | _ => false
-        if skip then some (ls, s) else some (ls.set (s.getLine stmt.span.1) (some cur.lc), s)
+      | some (ls, s) => if noLine stmt.nucleus then some (ls, s) else some (ls.set (s.getLine stmt.span.1) (some cur.lc), s)
     match cur.shift stmt.nucleus.wordLen with
-    | .error k => throw ⟨k, [stmt.span]⟩
-    | .ok cur' => pure ⟨some cur', labels, rel, lines⟩
+    | .error k => .error ⟨k, [stmt.span]⟩
+    | .ok cur' => .ok ⟨some cur', labels, rel, lines⟩
 
-/-- `SymbolTable::new` -/
-def pass1 (stmts : List Stmt) (src : Option (List Char)) : ARes SymTab := do
-  let init : P1 := ⟨none, [], [], src.map (fun s => let si := SourceInfo.ofText s; (List.replicate si.countLines none, si))⟩
-  let st ← stmts.foldlM pass1Step init
+/-- one statement of the first pass -/
+def pass1Step (st : P1) (stmt : Stmt) : ARes P1 :=
+  match p1Labels st stmt with
+  | .error e => .error e
+  | .ok labels =>
+    match p1Special st stmt labels with
+    | .error e => .error e
+    | .ok (cursor, labels, rel) => p1Advance st stmt cursor labels rel
+
+def p1Init (src : Option (List Char)) : P1 :=
+  ⟨none, [], [], src.map (fun s => (List.replicate (SourceInfo.ofText s).countLines none, SourceInfo.ofText s))⟩
+
+/-- the end of pass 1: an open block is an error; relocation candidates of non-external labels are dropped -/
+def p1Finish (st : P1) : ARes SymTab :=
   match st.cursor with
-  | some cur => throw ⟨.unclosedOrig, [cur.blockOrig]⟩
+  | some cur => .error ⟨.unclosedOrig, [cur.blockOrig]⟩
   | none =>
     let rel := st.rel.filter (fun e => match lookupKey st.labels e.2 with | some ⟨_, _, true⟩ => true | _ => false)
     let debug := match st.lines with
       | none => none
       | some (ls, si) => some ⟨(LineMap.new ls).getD [], si⟩
-    pure ⟨st.labels, rel, debug⟩
+    .ok ⟨st.labels, rel, debug⟩
+
+/-- `SymbolTable::new` -/
+def pass1 (stmts : List Stmt) (src : Option (List Char)) : ARes SymTab :=
+  match stmts.foldlM pass1Step (p1Init src) with
+  | .error e => .error e
+  | .ok st => p1Finish st
 
 /-! ### queries -/
 
@@ -233,13 +254,13 @@ def replacePcOffset (n : Nat) (off : PCOff n) (pc : W) (t : SymTab) : ARes (BitV
   | .off v => .ok v
   | .label l =>
     match lookupKey t.labels (upperS l.name) with
-    | some ⟨_, _, true⟩ => .error ⟨.offsetExternal, [l.span]⟩
-    | some ⟨addr, _, _⟩ =>
-      (match newS n (addr - pc) with
-       | .ok _ => .ok ((addr - pc).setWidth n)
-       | .err e => .error ⟨.offsetNewErr e, [l.span]⟩
-       | .panic _ => .error ⟨.offsetNewErr (.cannotFitSigned n), [l.span]⟩)
     | none => .error ⟨.couldNotFindLabel, [l.span]⟩
+    | some d =>
+      if d.ext then .error ⟨.offsetExternal, [l.span]⟩
+      else match newS n (d.addr - pc) with
+        | .ok _ => .ok ((d.addr - pc).setWidth n)
+        | .err e => .error ⟨.offsetNewErr e, [l.span]⟩
+        | .panic _ => .error ⟨.offsetNewErr (.cannotFitSigned n), [l.span]⟩
 
 /-- `AsmInstr::into_sim_instr` -/
 def intoSimInstr (i : AsmInstr) (pc : W) (t : SymTab) : ARes SimInstr :=
@@ -338,15 +359,16 @@ def pass2Step (t : SymTab) (st : P2) (stmt : Stmt) : ARes P2 :=
        | .ok si => .ok { st with current := some (lc + 1, { block with words := block.words ++ [some si.encode] }) })
 
 /-- `ObjectFile::new` (the symbol table is kept when debug symbols were requested or an external label is declared) -/
-def pass2 (stmts : List Stmt) (t : SymTab) (debug : Bool) : ARes ObjFile := do
-  let st ← stmts.foldlM (pass2Step t) ⟨[], none⟩
-  let hasExt := t.labels.any (fun e => e.2.ext)
-  pure ⟨st.done.map (fun b => (b.start.toNat, b.words)), if debug || hasExt then some t else none⟩
+def pass2 (stmts : List Stmt) (t : SymTab) (debug : Bool) : ARes ObjFile :=
+  match stmts.foldlM (pass2Step t) ⟨[], none⟩ with
+  | .error e => .error e
+  | .ok st => .ok ⟨st.done.map (fun b => (b.start.toNat, b.words)), if debug || t.labels.any (fun e => e.2.ext) then some t else none⟩
 
 /-- `assemble` / `assemble_debug` -/
-def assemble (stmts : List Stmt) (src : Option (List Char)) : ARes ObjFile := do
-  let t ← pass1 stmts src
-  pass2 stmts t src.isSome
+def assemble (stmts : List Stmt) (src : Option (List Char)) : ARes ObjFile :=
+  match pass1 stmts src with
+  | .error e => .error e
+  | .ok t => pass2 stmts t src.isSome
 
 /-! ### linking -/
 
@@ -396,29 +418,41 @@ def linkLabel (st : LinkSt) (e : Key × SymData) : ARes LinkSt :=
     else if ad.addr ≠ bd.addr then .error ⟨.overlappingLabels, [ad.span label, bd.span label]⟩
     else .ok st
 
+/-- the block part of `link`: insert B's blocks (an equal start is an error), then no two neighbours may overlap -/
+def linkBlocks (a b : Blocks) : ARes Blocks :=
+  let r := b.foldl (fun (acc : Blocks × Bool) e => ((insertBlockRaw e.1 e.2 acc.1).1, acc.2 || (insertBlockRaw e.1 e.2 acc.1).2)) (a, false)
+  if r.2 then .error ⟨.overlappingBlocks, [(0, 0)]⟩
+  else if adjacentOverlap r.1 then .error ⟨.overlappingBlocks, [(0, 0)]⟩
+  else .ok r.1
+
+def linkShift (a b : SymTab) : Nat :=
+  match a.debug, b.debug with
+  | some ad, some _ => blen ad.src.src + 1
+  | _, _ => 0
+
+def linkDebug (a b : SymTab) : Option DebugSyms :=
+  match a.debug, b.debug with
+  | some ad, some bd => some (DebugSyms.link ad bd)
+  | some ad, none => some ad
+  | none, d => d
+
+/-- the symbol-table part of `link` -/
+def linkSyms (at_ bt : SymTab) (blocks : Blocks) : ARes ObjFile :=
+  let shift := linkShift at_ bt
+  let rel := bt.rel.foldl (fun m e => relInsert m e.1 e.2) at_.rel
+  match bt.labels.foldlM (fun st e => linkLabel st (e.1, { e.2 with srcStart := satAdd e.2.srcStart shift })) ⟨at_.labels, rel, []⟩ with
+  | .error e => .error e
+  | .ok st => .ok ⟨st.relocs.foldl (fun m r => patchWord m r.1 r.2) blocks, some ⟨st.labels, st.rel, linkDebug at_ bt⟩⟩
+
 /-- `ObjectFile::link` -/
-def ObjFile.link (a b : ObjFile) : ARes ObjFile := do
-  -- blocks
-  let (blocks, dup) := b.blocks.foldl (fun (acc : Blocks × Bool) e =>
-      let (m, d) := insertBlockRaw e.1 e.2 acc.1; (m, acc.2 || d)) (a.blocks, false)
-  -- the Rust loop returns at the first duplicate start; the error is the same one
-  if dup then throw ⟨.overlappingBlocks, [(0, 0)]⟩
-  if adjacentOverlap blocks then throw ⟨.overlappingBlocks, [(0, 0)]⟩
-  match a.sym, b.sym with
-  | some at_, some bt =>
-    let shift := match at_.debug, bt.debug with
-      | some ad, some _ => blen ad.src.src + 1
-      | _, _ => 0
-    let debug := match at_.debug, bt.debug with
-      | some ad, some bd => some (DebugSyms.link ad bd)
-      | some ad, none => some ad
-      | none, d => d
-    let rel := bt.rel.foldl (fun m e => relInsert m e.1 e.2) at_.rel
-    let st ← bt.labels.foldlM (fun st e => linkLabel st (e.1, { e.2 with srcStart := satAdd e.2.srcStart shift })) ⟨at_.labels, rel, []⟩
-    let blocks := st.relocs.foldl (fun m r => patchWord m r.1 r.2) blocks
-    pure ⟨blocks, some ⟨st.labels, st.rel, debug⟩⟩
-  | some at_, none => pure ⟨blocks, some at_⟩
-  | none, s => pure ⟨blocks, s⟩
+def ObjFile.link (a b : ObjFile) : ARes ObjFile :=
+  match linkBlocks a.blocks b.blocks with
+  | .error e => .error e
+  | .ok blocks =>
+    match a.sym, b.sym with
+    | some at_, some bt => linkSyms at_ bt blocks
+    | some at_, none => .ok ⟨blocks, some at_⟩
+    | none, s => .ok ⟨blocks, s⟩
 
 def ObjFile.externalSymbols (o : ObjFile) : List Key :=
   match o.sym with
